@@ -655,4 +655,123 @@ theorem addRelevantTx_spec (st : State) (scopes : List Nat) (hsc : st.scopes = s
       rw [hnew p hp]
   rw [hcs]
 
+/-- A transaction that does not touch the wallet leaves the expected credits unchanged. -/
+theorem specCredits_untouched (scopes : List Nat) (ops : List OutPoint) (pre : List Tx) (tx : Tx)
+    (hsub : ∀ op ∈ wops scopes pre, op ∈ ops) (ht : touches scopes ops tx = false) :
+    specCredits scopes (pre ++ [tx]) = specCredits scopes pre := by
+  simp only [touches, Bool.or_eq_false_iff] at ht
+  have hw : walletOuts scopes [tx] = [] := by
+    simp only [walletOuts, List.flatMap_cons, List.flatMap_nil, List.append_nil]
+    exact wouts_eq_nil scopes tx.id tx.outs 0 ht.1
+  simp only [specCredits, walletOuts_append, hw, List.append_nil]
+  apply List.map_congr_left
+  intro p hp
+  have hpo : p.1 ∈ ops := hsub p.1 (List.mem_map.mpr ⟨p, hp, rfl⟩)
+  have hc : tx.ins.contains p.1 = false := by
+    have h2 := ht.2
+    rw [List.any_eq_false] at h2
+    cases hcc : tx.ins.contains p.1
+    · rfl
+    · exfalso
+      exact h2 p.1 (by simpa using hcc) (by simpa using hpo)
+  rw [spentIn_append, spentIn_single, hc, Bool.or_false]
+
+/-- A wallet output is not spent by its own or an earlier transaction. -/
+theorem order_at {scopes : List Nat} {invalid : BranchId → List Nat} {c : Chain} (hwf : ChainWF scopes invalid c)
+    {pre : List Tx} {tx : Tx} {post : List Tx} (e : allTxs c = pre ++ tx :: post) :
+    ∀ p ∈ wouts scopes tx.id tx.outs 0, spentIn (pre ++ [tx]) p.1 = false := by
+  intro p hp
+  unfold spentIn
+  rw [List.any_eq_false]
+  intro t ht hc
+  have hop : p.1 ∈ t.ins := by simpa using hc
+  have hpm : p.1 ∈ (wouts scopes tx.id tx.outs 0).map (·.1) := List.mem_map.mpr ⟨p, hp, rfl⟩
+  rcases List.mem_append.mp ht with ht | ht
+  · obtain ⟨a, b, hab⟩ := List.append_of_mem ht
+    have e' : allTxs c = a ++ t :: (b ++ tx :: post) := by rw [e, hab]; simp
+    exact hwf.order a t _ e' p.1 hop tx (by simp) hpm
+  · simp only [List.mem_singleton] at ht
+    subst ht
+    exact hwf.order pre t post e p.1 hop t (by simp) hpm
+
+/-- The `for _, txn := range filterResp.RelevantTxns { addRelevantTx }` loop over the transactions of a block that
+    touch the wallet: credits become exactly those expected after the block; every such transaction is recorded. -/
+theorem relevantFold_spec {scopes : List Nat} {invalid : BranchId → List Nat} {c : Chain}
+    (hwf : ChainWF scopes invalid c) (h : Nat) :
+    ∀ (blk : Block) (pre post : List Tx) (st : State), allTxs c = pre ++ blk ++ post → st.scopes = scopes →
+    st.credits = specCredits scopes pre →
+    (∀ p ∈ st.txs, ∃ t ∈ pre, t.id = p.1) →
+    (∀ k ∈ paidKeys blk, scopes.contains k.scope = true → k.index < st.nextOf (k.scope, k.internal)) →
+    (∃ ts us, (blk.filter (touches scopes (wops scopes (allTxs c)))).foldl (fun st tx => addRelevantTx st tx h) st
+        = { st with txs := ts, credits := specCredits scopes (pre ++ blk), used := us }) ∧
+    (∀ x ∈ st.used, x ∈
+      ((blk.filter (touches scopes (wops scopes (allTxs c)))).foldl (fun st tx => addRelevantTx st tx h) st).used) ∧
+    (∀ p ∈ st.txs, p ∈
+      ((blk.filter (touches scopes (wops scopes (allTxs c)))).foldl (fun st tx => addRelevantTx st tx h) st).txs) ∧
+    (∀ p ∈ ((blk.filter (touches scopes (wops scopes (allTxs c)))).foldl (fun st tx => addRelevantTx st tx h) st).txs,
+      ∃ t ∈ pre ++ blk, t.id = p.1) ∧
+    (∀ tx ∈ blk, touches scopes (wops scopes (allTxs c)) tx = true → (tx.id, h) ∈
+      ((blk.filter (touches scopes (wops scopes (allTxs c)))).foldl (fun st tx => addRelevantTx st tx h) st).txs) := by
+  intro blk
+  induction blk with
+  | nil =>
+    intro pre post st _ _ hcr hids _
+    simp only [List.filter_nil, List.foldl_nil, List.append_nil]
+    exact ⟨⟨st.txs, st.used, by rw [← hcr]⟩, fun _ h => h, fun _ h => h, hids, fun _ h => by cases h⟩
+  | cons tx rest ih =>
+    intro pre post st e hsc hcr hids hknown
+    have e' : allTxs c = (pre ++ [tx]) ++ rest ++ post := by rw [e]; simp
+    have e'' : allTxs c = pre ++ tx :: (rest ++ post) := by rw [e]; simp
+    have hknown' : ∀ k ∈ paidKeys rest, scopes.contains k.scope = true → k.index < st.nextOf (k.scope, k.internal) :=
+      fun k hk => hknown k (by rw [paidKeys_cons]; exact List.mem_append_right _ hk)
+    have hsubpre : ∀ op ∈ wops scopes pre, op ∈ wops scopes (allTxs c) := by
+      intro op hop; rw [e'', wops_append]; exact List.mem_append_left _ hop
+    cases htt : touches scopes (wops scopes (allTxs c)) tx
+    · -- not relevant: skipped by the filter
+      have hf : (tx :: rest).filter (touches scopes (wops scopes (allTxs c)))
+          = rest.filter (touches scopes (wops scopes (allTxs c))) := by simp [htt]
+      rw [hf]
+      have hcr' : st.credits = specCredits scopes (pre ++ [tx]) := by
+        rw [specCredits_untouched scopes _ pre tx hsubpre htt]; exact hcr
+      obtain ⟨⟨ts, us, q1⟩, q2, q3, q4, q5⟩ := ih (pre ++ [tx]) post st e' hsc hcr'
+        (fun p hp => by obtain ⟨t, ht, hid⟩ := hids p hp; exact ⟨t, List.mem_append_left _ ht, hid⟩) hknown'
+      refine ⟨⟨ts, us, by rw [q1]; simp⟩, q2, q3, ?_, ?_⟩
+      · intro p hp; obtain ⟨t, ht, hid⟩ := q4 p hp; exact ⟨t, by simpa using ht, hid⟩
+      · intro t ht htch
+        rcases List.mem_cons.mp ht with rfl | ht
+        · rw [htt] at htch; cases htch
+        · exact q5 t ht htch
+    · have hf : (tx :: rest).filter (touches scopes (wops scopes (allTxs c)))
+          = tx :: rest.filter (touches scopes (wops scopes (allTxs c))) := by simp [htt]
+      rw [hf, List.foldl_cons]
+      have hfresh : ∀ p ∈ st.txs, p.1 ≠ tx.id := by
+        intro p hp
+        obtain ⟨t, ht, hid⟩ := hids p hp
+        rw [← hid]; exact hwf.ids pre tx _ e'' t ht
+      have hkn : ∀ o ∈ tx.outs, ∀ k, o.key = some k → scopes.contains k.scope = true →
+          k.index < st.nextOf (k.scope, k.internal) := by
+        intro o ho k hk hs
+        apply hknown k _ hs
+        rw [paidKeys_cons]
+        exact List.mem_append_left _ (List.mem_filterMap.mpr ⟨o, ho, hk⟩)
+      obtain ⟨us1, e1, hu1⟩ := addRelevantTx_spec st scopes hsc pre tx h hfresh hcr hkn (order_at hwf e'')
+      rw [e1]
+      obtain ⟨⟨ts, us, q1⟩, q2, q3, q4, q5⟩ := ih (pre ++ [tx]) post
+        { st with txs := st.txs ++ [(tx.id, h)], credits := specCredits scopes (pre ++ [tx]), used := us1 }
+        e' hsc rfl
+        (by
+          intro p hp
+          rcases List.mem_append.mp hp with hp | hp
+          · obtain ⟨t, ht, hid⟩ := hids p hp; exact ⟨t, List.mem_append_left _ ht, hid⟩
+          · simp only [List.mem_singleton] at hp
+            exact ⟨tx, by simp, by rw [hp]⟩)
+        hknown'
+      refine ⟨⟨ts, us, by rw [q1]; simp⟩, fun x hx => q2 x (hu1 x hx),
+        fun p hp => q3 p (List.mem_append_left _ hp), ?_, ?_⟩
+      · intro p hp; obtain ⟨t, ht, hid⟩ := q4 p hp; exact ⟨t, by simpa using ht, hid⟩
+      · intro t ht htch
+        rcases List.mem_cons.mp ht with rfl | ht
+        · exact q3 _ (by simp)
+        · exact q5 t ht htch
+
 end Recovery
